@@ -64,7 +64,7 @@ Definition chk_C05_step (cfg : config) (before : list obs_alloc) (o : ostep) : b
   end &&
   (* ChannelData toward the client only carries numbers in range *)
   forallb (fun a => match a with ChanDataOut _ n _ => valid_chan n | _ => true end) (os_acts o).
-Definition chk_C05 (c : rcase) : bool := all_steps (chk_C05_step (rc_cfg c)) [] (rc_steps c).
+
 
 (* ---------- C04 ---------- *)
 Definition others (src : addr) (l : list obs_alloc) : list obs_alloc :=
@@ -128,6 +128,45 @@ Definition lifetime_attr (l : list sattr) : option Z :=
 
 Definition deleted_clients (acts : list action) : list addr :=
   flat_map (fun a => match a with Life (LAllocDeleted c _) => [c] | _ => [] end) acts.
+
+(* "forwarded exactly once": when relaying is authorised by what exists before the event, and the datagram fits, it
+   IS forwarded - one ToPeer for a Send/ChannelData, one Data indication or ChannelData for a peer datagram.
+   [tcp]: clients whose allocation was requested with transport TCP (their relay does not carry datagrams). *)
+Fixpoint chk_C05_live (cfg : config) (tcp : list addr) (before : list obs_alloc) (steps : list ostep) : bool :=
+  match steps with
+  | [] => true
+  | o :: r =>
+      let acts := os_acts o in
+      let is_udp c := negb (existsb (addr_eqb c) tcp) in
+      let tcp1 := match os_ev o with
+                  | EReq src _ _ (RqAllocate (APresent 6%N) _ _ _ _ _ _ _) _ =>
+                      match success_of MAllocate acts, find_oalloc src before with
+                      | Some _, None => src :: tcp
+                      | _, _ => tcp end
+                  | _ => tcp end in
+      let tcp2 := filter (fun c => match find_oalloc c (os_allocs o) with Some _ => true | None => false end) tcp1 in
+      match os_ev o with
+      | ESend src (Some (PeerOk p)) (Some d) =>
+          match find_oalloc src before with
+          | Some a => if has_perm (ip p) a && is_udp src && (send_wire_len p d <? cfg_mtu cfg)%N
+                      then (length (topeers acts) =? 1)%nat else true
+          | None => true end
+      | EChanData src n d =>
+          match find_oalloc src before with
+          | Some a => if existsb (fun c => (fst c =? n)%N) (oa_chans a) && is_udp src && (chandata_wire_len d <? cfg_mtu cfg)%N
+                      then (length (topeers acts) =? 1)%nat else true
+          | None => true end
+      | EPeer relay from d =>
+          match find_orelay relay before with
+          | Some a => if (has_perm (ip from) a || existsb (fun c => addr_eqb (snd c) from) (oa_chans a)) &&
+                         is_udp (oa_client a) && (lenN d <=? rtp_mtu)%N
+                      then (length (todata acts) =? 1)%nat else true
+          | None => true end
+      | _ => true
+      end && chk_C05_live cfg tcp2 (os_allocs o) r
+  end.
+Definition chk_C05 (c : rcase) : bool :=
+  all_steps (chk_C05_step (rc_cfg c)) [] (rc_steps c) && chk_C05_live (rc_cfg c) [] [] (rc_steps c).
 
 (* ---------- C06: an allocation exists exactly until the last reported LIFETIME has elapsed ---------- *)
 (* exp: client -> absolute expiry (ns) computed from the success responses alone *)
